@@ -136,7 +136,13 @@ macro_rules! dim_checks {
             pub fn mid_centroid<S: Sn>(d: &mut Draw) -> Outcome {
                 let (p, q) = (g::<S>(d), g::<S>(d));
                 let len = d.int(1, 8) as usize;
-                let pts: Vec<Vec<S>> = (0..len).map(|_| g::<S>(d)).collect();
+                let mut pts: Vec<Vec<S>> = (0..len).map(|_| g::<S>(d)).collect();
+                if d.chance(1, 20) {
+                    // a long list: the drawn points repeated cyclically up to a length beyond any plausible block size
+                    let total = d.int(1000, 2600) as usize;
+                    pts = (0..total).map(|j| pts[j % len].clone()).collect();
+                }
+                let len = pts.len();
                 d.note("p", &p);
                 d.note("q", &q);
                 d.note("points", &pts);
@@ -242,7 +248,7 @@ fn float3(d: &mut Draw) -> Outcome {
         ensure!((goto_ - (to[0] + to[1] + to[2])).abs() <= 8.0 * E * (to[0].abs() + to[1].abs() + to[2].abs()) + 1e-300, "float-point-dot-uniform", "dot({:?}, {:?}) = {:e}", po, vo, goto_);
     }
     // centroid of short and long lists
-    let n = match d.int(0, 3) { 0 => d.int(1, 4), 1 => d.int(5, 40), 2 => d.int(41, 300), _ => d.int(250, 520) } as usize;
+    let n = match d.int(0, 4) { 0 => d.int(1, 4), 1 => d.int(5, 40), 2 => d.int(41, 300), 3 => d.int(1000, 2600), _ => d.int(250, 520) } as usize;
     let mut pts = Vec::with_capacity(n);
     // long lists are built from a few drawn points repeated with exact sign/scale changes (keeps the draw vector short)
     let base: Vec<Point3<f64>> = (0..n.min(6)).map(|_| Point3::new(comp(d), comp(d), comp(d))).collect();
@@ -336,7 +342,7 @@ pub fn property() -> Property {
             "fields: Q and Fp; the division-free clauses (and midpoint/centroid with the integer's own truncating division) also over i64 in +-1024",
             "homogeneous scale factors and divisors are non-zero by construction",
             "in Fp the list length n of centroid is invertible (n <= 8 < p)",
-            "f64 tier (float3-f64): one magnitude per case from 1e-290..1e300 (1e-140..1e140 for the homogeneous clause, which multiplies by k) so that every quantity in the statement stays in the normal range; tolerances are rounding-only (4 eps relative per clause, n eps for an n-term sum); lists up to 520 points; k over 1e+-150 and within 8 ulps of 1",
+            "f64 tier (float3-f64): one magnitude per case from 1e-290..1e300 (1e-140..1e140 for the homogeneous clause, which multiplies by k) so that every quantity in the statement stays in the normal range; tolerances are rounding-only (4 eps relative per clause, n eps for an n-term sum); lists up to 2600 points; k over 1e+-150 and within 8 ulps of 1",
         ],
         fuzz: false,
     }
